@@ -136,6 +136,19 @@ def run(ctx: Ctx) -> None:
                     except (Unsupported, Raised) as e:
                         und = str(e)
                         break
+                    if partial and i < ninst:
+                        # partial instantiation: a position without an argument must be left to the recursive descent
+                        # (`None` = "not handled, keep transforming the parts", e.g. the type of a const variable)
+                        inst2 = list(inst_list)
+                        inst2[i] = None
+                        n += 1
+                        try:
+                            out2 = ev.run(f.node.body, {ps[0]: Tok("self", inst=inst2, allow_partial=True), ps[1]: var, vkind: mk})
+                        except (Unsupported, Raised) as e:
+                            und = str(e)
+                            break
+                        if out2 != ("return", None):
+                            bad.append({"idx": i, "instantiated": ninst, "argument": None, "got": repr(out2[1]), "want": "None (continue the descent)"})
                     if i < ninst:
                         want = inst_list[i].attrs["ty" if argkind == "TypeArg" else "const"]
                         if out[0] != "return" or out[1] != want:
